@@ -28,16 +28,25 @@ WRITE_FLAGS = os.O_WRONLY | os.O_RDWR | os.O_CREAT | os.O_TRUNC | os.O_APPEND
 
 
 def tree(root):
-    """{relative name: ('d',) | ('f', bytes)} of everything under root (root itself excluded); None if root is absent."""
+    """{relative name: ('d',) | ('f', bytes) | ('l', target)} of everything under root (root itself excluded); None if root
+    is absent. Symbolic links are recorded as links (a link is not a copy of the bytes it points to)."""
     if not os.path.lexists(root):
         return None
     out = {}
     for dirpath, dirnames, filenames in os.walk(root):
         rel = os.path.relpath(dirpath, root)
-        for d in dirnames:
-            out[os.path.normpath(os.path.join(rel, d))] = ("d",)
+        for d in list(dirnames):
+            p = os.path.join(dirpath, d)
+            if os.path.islink(p):
+                out[os.path.normpath(os.path.join(rel, d))] = ("l", os.readlink(p))
+                dirnames.remove(d)
+            else:
+                out[os.path.normpath(os.path.join(rel, d))] = ("d",)
         for f in filenames:
             p = os.path.join(dirpath, f)
+            if os.path.islink(p):
+                out[os.path.normpath(os.path.join(rel, f))] = ("l", os.readlink(p))
+                continue
             with open(p, "rb") as fh:
                 out[os.path.normpath(os.path.join(rel, f))] = ("f", fh.read())
     return out
@@ -51,13 +60,15 @@ def tree_digest(t):
         h.update(k.encode() + b"\0" + t[k][0].encode())
         if t[k][0] == "f":
             h.update(hashlib.blake2b(t[k][1], digest_size=10).digest())
+        elif t[k][0] == "l":
+            h.update(t[k][1].encode())
     return h.hexdigest()
 
 
 def tree_summary(t, limit=12):
     if t is None:
         return "<absent>"
-    return {k: (v[0] if v[0] == "d" else len(v[1])) for k, v in sorted(t.items())[:limit]}
+    return {k: (v[0] if v[0] == "d" else (len(v[1]) if v[0] == "f" else "->" + v[1])) for k, v in sorted(t.items())[:limit]}
 
 
 class _Scan:
